@@ -5,7 +5,10 @@ algorithm (RSA), a verifier (same object / same key obtained another way / anoth
 data given to the verifier (same / altered), the SHAPE of the genuine signature that is selected
 among several produced by the signer (ECDSA: r / s / both / neither carry the 0x00 sign byte of a
 top-bit-set mpint, r or s one byte shorter than the field; RSA: leading zero octet) and a mutation
-of the signature blob (none, bit flip, truncation, extension, algorithm-name edits, inner-encoding
+of the signature blob (none, bit flip, truncation, extension, algorithm name replaced by another one, the
+GENUINE algorithm name edited in place - bytes that are / are not valid UTF-8, NUL, blanks, separators spliced in at
+any gap, appended, prepended, one character replaced / deleted / doubled, case changes, with the length prefix
+recomputed so that only the name differs from the genuine message -, inner-encoding
 edits, structure-aware re-encodings of the genuine integers - sign byte dropped (= negative on the
 wire), zero-padded (same value), 0xff-padded / sign-extended, first byte dropped - random bytes).
 Oracle: verify_ssh_sig returns exactly True or False and never raises; the value equals the
@@ -34,7 +37,10 @@ RULE = (
     "another key; RSA algorithm among 6 names; message 0-2000 bytes; data same/altered; shape of the genuine signature "
     "selected among up to 1200 signatures of the signer (ECDSA r/s/both/neither with mpint sign byte, r/s short; RSA leading "
     "zero octet); blob mutation none/bitflip/"
-    "truncate/extend/algorithm name (other type, hash, curve, unknown, empty, invalid UTF-8)/signature length/ECDSA inner "
+    "truncate/extend/algorithm name replaced (other type, hash, curve, unknown, empty, invalid UTF-8)/the GENUINE algorithm name edited in "
+    "place (insert at any gap, append, prepend, replace or delete one character; payloads: 12 byte strings that are not valid UTF-8, "
+    "valid multi-byte UTF-8 incl. zero-width, NUL, blanks, control, separators, ASCII, drawn bytes; case changes, dashes removed, name "
+    "doubled, name-list form; length prefix recomputed)/signature length/ECDSA inner "
     "integers (non-minimal, negative, zero, >= order, 4096-bit, missing, trailing, (r,n-s))/re-encoding of the genuine integers "
     "(ECDSA r, s or both; RSA/Ed25519 signature string: sign byte dropped, zero-padded by 1/2/8, 0xff-padded, sign byte replaced by "
     "0xff, first byte dropped; all length prefixes corrected)/zero-tail truncation (outer, inner)/inner length prefixes/random "
@@ -67,6 +73,43 @@ ALG_EDITS = [
     b"SSH-RSA",
     b"ssh-ed25519\xc3",
     b"ecdsa-sha2-nistp256\xe2\x82",
+]
+# structured edits of the GENUINE algorithm name (the field keeps its framing: the length prefix is recomputed).
+# op x position x payload; the payload table mixes bytes that are not valid UTF-8 on their own (stray continuation
+# bytes, lead bytes without continuation, overlong / surrogate / > U+10FFFF forms, 0xfe/0xff), valid multi-byte UTF-8,
+# and ASCII that a lenient comparison might normalise away (NUL, blanks, separators, case).
+ALGNAME_OPS = ["insert", "insert", "insert", "append", "prepend", "replace", "delete", "dup-char", "upper", "lower-upper-one", "swapcase", "title", "strip-dashes", "twice", "list-with"]
+ALGNAME_PAYLOADS = [
+    (b"\xff", "invalid-utf8"),
+    (b"\xfe\xff", "invalid-utf8"),
+    (b"\x80", "invalid-utf8"),
+    (b"\xbf\xbf", "invalid-utf8"),
+    (b"\xc3", "invalid-utf8"),
+    (b"\xe2\x82", "invalid-utf8"),
+    (b"\xf0\x9f\x94", "invalid-utf8"),
+    (b"\xc0\xaf", "invalid-utf8"),
+    (b"\xc0\x80", "invalid-utf8"),
+    (b"\xed\xa0\x80", "invalid-utf8"),
+    (b"\xf4\x90\x80\x80", "invalid-utf8"),
+    (b"\xf8\x88\x80\x80\x80", "invalid-utf8"),
+    (b"\xc3\xa9", "valid-utf8"),
+    (b"\xe2\x80\x8b", "valid-utf8"),
+    (b"\xef\xbb\xbf", "valid-utf8"),
+    (b"\xc2\xad", "valid-utf8"),
+    (b"\xcc\x81", "valid-utf8"),
+    (b"\x00", "nul"),
+    (b"\x00\x00\x00", "nul"),
+    (b" ", "blank"),
+    (b"\t", "blank"),
+    (b"\n", "blank"),
+    (b"\r\n", "blank"),
+    (b"\x7f", "control"),
+    (b"\x1b", "control"),
+    (b",", "separator"),
+    (b"-", "separator"),
+    (b"@", "separator"),
+    (b"a", "ascii"),
+    (b"2", "ascii"),
 ]
 REENC_OPS = ["drop-lead-zero", "drop-lead-zero", "pad-zero-1", "pad-zero-2", "pad-zero-8", "pad-ff-1", "pad-ff-4", "neg-extend", "drop-first"]
 # shape of the genuine signature to select: weights by repetition ("any" = first signature produced)
@@ -220,6 +263,9 @@ mutations = st.one_of(
     st.tuples(st.just("extend"), st.binary(min_size=1, max_size=8)).map(list),
     st.tuples(st.just("alg"), st.sampled_from(ALG_EDITS)).map(list),
     st.tuples(st.just("alg"), st.binary(max_size=12)).map(list),
+    st.tuples(st.just("alg-edit"), st.sampled_from(ALGNAME_OPS), st.integers(0, 9999), st.integers(0, len(ALGNAME_PAYLOADS) - 1)).map(list),
+    st.tuples(st.just("alg-edit"), st.sampled_from(ALGNAME_OPS), st.integers(0, 9999), st.integers(0, len(ALGNAME_PAYLOADS) - 1)).map(lambda v: list(v)),
+    st.tuples(st.just("alg-edit"), st.just("insert"), st.integers(0, 9999), st.binary(min_size=1, max_size=4)).map(list),
     st.tuples(st.just("siglen"), st.sampled_from(["empty", "drop-first", "drop-last", "prepend-zero", "append-zero", "half", "double", "strip-zeros"])).map(list),
     st.tuples(
         st.just("inner"),
@@ -371,6 +417,56 @@ def _reenc(body, op):
     raise AssertionError(op)
 
 
+def _alg_payload(p):
+    """(bytes, class) of an alg-edit payload: index into ALGNAME_PAYLOADS or literal bytes."""
+    if isinstance(p, int):
+        return ALGNAME_PAYLOADS[p % len(ALGNAME_PAYLOADS)]
+    raw = bytes(p)
+    try:
+        raw.decode("utf-8")
+    except UnicodeDecodeError:
+        return raw, "invalid-utf8"
+    return raw, "ascii" if all(32 < c < 127 for c in raw) else "drawn-valid-utf8"
+
+
+def alg_edit(name, op, frac, payload):
+    """One structured edit of the genuine algorithm-name bytes; None when it leaves the name unchanged."""
+    pay, _ = _alg_payload(payload)
+    pos = frac * (len(name) + 1) // 10000  # 0 .. len(name): every gap incl. both ends
+    cpos = min(pos, len(name) - 1)  # a character position
+    if op == "insert":
+        new = name[:pos] + pay + name[pos:]
+    elif op == "append":
+        new = name + pay
+    elif op == "prepend":
+        new = pay + name
+    elif op == "replace":
+        new = name[:cpos] + pay + name[cpos + 1 :]
+    elif op == "delete":
+        new = name[:cpos] + name[cpos + 1 :]
+    elif op == "dup-char":
+        new = name[: cpos + 1] + name[cpos:]
+    elif op == "upper":
+        new = name.upper()
+    elif op == "lower-upper-one":
+        new = name[:cpos] + name[cpos : cpos + 1].upper() + name[cpos + 1 :]
+        if new == name:  # a digit or dash there: take the first letter instead
+            new = name[:1].upper() + name[1:]
+    elif op == "swapcase":
+        new = name.swapcase()
+    elif op == "title":
+        new = name.title()
+    elif op == "strip-dashes":
+        new = name.replace(b"-", b"")
+    elif op == "twice":
+        new = name + name
+    elif op == "list-with":
+        new = name + b"," + (pay if pay.isalnum() else b"ssh-rsa")
+    else:
+        raise AssertionError(op)
+    return None if new == name else new
+
+
 def realise(rc, info=None):
     """recipe -> (data, blob, applied) ; applied False when the mutation does not apply to this key type.
     ``info`` (dict) receives "shape" (sig_shape of the genuine signature) and "sel" / "sel_found"."""
@@ -433,6 +529,12 @@ def realise(rc, info=None):
         blob = blob + bytes(mut[1])
     elif kind == "alg":
         blob = _join(bytes(mut[1]), sig)
+    elif kind == "alg-edit":
+        new = alg_edit(alg, mut[1], mut[2], mut[3])
+        if new is None:
+            applied = False
+        else:
+            blob = _join(new, sig)
     elif kind == "siglen":
         how = mut[1]
         if how == "empty":
@@ -627,6 +729,11 @@ def execute(ctx, rc, state):
         extra.append("sel:" + info["sel"])
     if rc["mut"][0] == "reenc" and applied:
         extra.append("reenc:%s:%s" % (key_class(rc["signer"]), rc["mut"][2]))
+    if rc["mut"][0] == "alg-edit" and applied:
+        op = rc["mut"][1]
+        extra.append("alg-edit:%s:%s" % (key_class(rc["signer"]), op))
+        if op in ("insert", "append", "prepend", "replace"):
+            extra.append("alg-edit-payload:%s:%s" % ({"insert": "spliced", "replace": "spliced"}.get(op, op), _alg_payload(rc["mut"][3])[1]))
     if not isinstance(rc["signer"], str) and rc["signer"][0] == "ec":
         lx, ly = KM.ec_coord_shape(ref_private(rc["signer"]).public_key())
         extra.append("signer-ec-coord:" + ("short" if lx or ly else "full"))
